@@ -32,7 +32,7 @@ func init() {
 		Assumptions: []string{
 			"zones are static within a scenario (aggressive use of a cached NSEC against a later-added name is RFC-legal)",
 			"the pure arithmetic of the dnssec.Verify* entry points is exercised only through the pipeline; all subsets/orderings are sampled, not enumerated",
-			"a proof's lifetime is taken as max(SOA minimum, 5 s) plus 2 s of slack",
+			"a proof's lifetime is taken as max(SOA minimum, 5 s) plus 6 s of slack (exact lifetimes are checked by C04)",
 		},
 		Components: kit.Components{
 			Real: []string{"full default middleware chain", "resolver + dnssec NSEC/NSEC3/aggressive-negative", "cache denial-proof cache and NXDOMAIN cut cache", "server.ServeMsg"},
@@ -182,6 +182,16 @@ func oracleC02(o *resOp, st *c02State) bool {
 	qkey := fmt.Sprintf("%s/%d/%v", dns.CanonicalName(op.Name), op.Qtype, op.CD)
 	_, askedBefore := st.asked[qkey]
 	st.asked[qkey] = now
+	if !askedBefore {
+		// the exact question may have been resolved internally before (alias chase,
+		// name-server address lookup): then an exact cached entry legitimately exists
+		for _, s := range w.Net.Canonical() {
+			if s.Qtype == op.Qtype && s.Name == strings.ToLower(dns.CanonicalName(op.Name)) && s.At < now-3*time.Second {
+				askedBefore = true
+				break
+			}
+		}
+	}
 	if len(o.fired) > 0 {
 		res.Nontrivial = true
 	}
@@ -263,7 +273,7 @@ func oracleC02(o *resOp, st *c02State) bool {
 		if life < 5*time.Second {
 			life = 5 * time.Second
 		}
-		life += 2 * time.Second
+		life += 6 * time.Second // slack: exact lifetimes are C04's subject; here only "some live proof existed"
 		okProof := false
 		var latest time.Duration = -1
 		for _, h := range *o.hookLog {
@@ -295,7 +305,7 @@ func oracleC02(o *resOp, st *c02State) bool {
 			return false
 		}
 		if !okProof {
-			res.Fail("C02/synthesis-without-live-proof", "%s: denied without upstream traffic, but no CD=0 denial from %s (or an ancestor) was delivered within its lifetime (latest at %v, now %v)", o.ctx, zn, latest, now)
+			res.Fail("C02/synthesis-without-live-proof", "%s: denied without upstream traffic, but no CD=0 denial from %s (or an ancestor) was delivered within its lifetime (latest at %v, now %v)\n%s", o.ctx, zn, latest, now, m.String())
 			return false
 		}
 	}
